@@ -5,6 +5,7 @@ import (
 	"fmt"
 	"math"
 	"regexp"
+	"regexp/syntax"
 	"sort"
 	"strconv"
 	"strings"
@@ -25,9 +26,9 @@ type Rules struct {
 	VectorAggKeepsSeries  bool // D17: vector aggregation without by/without groups by the input series
 	UnwrapLabelKept       bool // unwrapped label stays part of the series identity
 	UnwrapInvalidAsZero   bool // D50: missing / non-numeric unwrap label counts as a sample of value 0
-	StepFixFirstBucket    bool // step > range: per epoch-aligned step bucket only the earliest non-empty range bucket survives, relabelled to the step bucket start
 	Shortcut15sGrid       bool // shortcut with a range that is not a multiple of 15 s: entries are attributed by their 15 s bucket start
 	CmpThreshold6Decimals bool // comparison threshold rendered with %f (6 decimals)
+	NegRegexLineLost      bool // D12 (C07): `!~` with a regex that is not a plain literal is rendered like `|~`
 	TypeIgnored           bool // (mutant aid, never listed) metric-type samples counted
 }
 
@@ -69,6 +70,11 @@ func lineMatch(op, val, line string) (bool, error) {
 		return re.MatchString(line) == (op == "|~"), nil
 	}
 	return false, fmt.Errorf("line op %q", op)
+}
+
+func regexIsLiteral(re string) bool {
+	exp, err := syntax.Parse(re, syntax.PerlX)
+	return err == nil && exp.Op == syntax.OpLiteral && exp.Flags&^(syntax.PerlX|syntax.FoldCase) == 0
 }
 
 func labelMatch(s Stage, labels map[string]string) (bool, error) {
@@ -215,7 +221,6 @@ func floorDiv(a, b int64) int64 {
 // Eval evaluates q on d for the window of p.
 func (rules Rules) Eval(d *Database, q *Query, p Params) (*Ref, error) {
 	rng := int64(q.RangeS) * sec
-	stepNs := p.StepMs * 1000000
 	from, to := p.FromS*sec, p.ToS*sec
 	wFrom := floorDiv(from, rng) * rng
 	wTo := floorDiv(to, rng)*rng + rng
@@ -249,7 +254,14 @@ func (rules Rules) Eval(d *Database, q *Query, p Params) (*Ref, error) {
 			continue
 		}
 		ts := e.TS
-		if ts < wFrom || ts >= wTo {
+		grid15 := rules.Shortcut15sGrid && shortcut
+		if grid15 {
+			// the shortcut reads 15 s pre-aggregates whose START lies in [floor(wFrom/15s)*15s, floor(wTo/15s)*15s)
+			b15 := floorDiv(ts, 15*sec) * 15 * sec
+			if b15 < floorDiv(wFrom, 15*sec)*15*sec || b15 >= floorDiv(wTo, 15*sec)*15*sec {
+				continue
+			}
+		} else if ts < wFrom || ts >= wTo {
 			continue
 		}
 		labels := cloneLabels(st.Labels)
@@ -259,7 +271,11 @@ func (rules Rules) Eval(d *Database, q *Query, p Params) (*Ref, error) {
 		for _, s := range stages {
 			switch s.Kind {
 			case "line":
-				m, err := lineMatch(s.Op, s.Val, e.Line)
+				op := s.Op
+				if rules.NegRegexLineLost && op == "!~" && !regexIsLiteral(s.Val) {
+					op = "|~"
+				}
+				m, err := lineMatch(op, s.Val, e.Line)
 				if err != nil {
 					return nil, err
 				}
@@ -326,13 +342,9 @@ func (rules Rules) Eval(d *Database, q *Query, p Params) (*Ref, error) {
 			acc[key] = a
 		}
 		b := floorDiv(ts, rng) * rng
-		if rules.Shortcut15sGrid && shortcut {
-			b15 := floorDiv(ts, 15*sec) * 15 * sec
-			// the shortcut reads 15 s pre-aggregates inside [floor(wFrom/15s), floor(wTo/15s)) and re-buckets their start
-			if b15 < floorDiv(wFrom, 15*sec)*15*sec || b15 >= floorDiv(wTo, 15*sec)*15*sec {
-				continue
-			}
-			b = floorDiv(b15, rng) * rng
+		if grid15 {
+			// ... and attributes each pre-aggregate to the range bucket of its start
+			b = floorDiv(floorDiv(ts, 15*sec)*15*sec, rng) * rng
 		}
 		a.buckets[b] = append(a.buckets[b], sample{ts, val})
 		a.bytes[b] += float64(len(e.Line))
@@ -640,27 +652,6 @@ func (rules Rules) Eval(d *Database, q *Query, p Params) (*Ref, error) {
 		ref.Series[key] = &refSeries{Labels: key, Buckets: pts}
 	}
 
-	if rules.StepFixFirstBucket && stepNs > rng {
-		// the SQL re-buckets by floor(b/step)*step and keeps, per series, the value of the earliest range bucket
-		for _, s := range ref.Series {
-			nb := map[int64]*refPoint{}
-			var bs []int64
-			for b := range s.Buckets {
-				bs = append(bs, b)
-			}
-			sort.Slice(bs, func(i, j int) bool { return bs[i] < bs[j] })
-			for _, b := range bs {
-				sb := floorDiv(T0+b, stepNs)*stepNs - T0
-				// FixPeriodPlanner then reads the relabelled timestamp as the range bucket floor(sb/range)*range
-				sb = floorDiv(T0+sb, rng)*rng - T0
-				if _, ok := nb[sb]; !ok {
-					nb[sb] = s.Buckets[b]
-				}
-			}
-			s.Buckets = nb
-		}
-		ref.TieNeed = map[int64]int{}
-	}
 	return ref, nil
 }
 
@@ -701,7 +692,7 @@ func (pt *refPoint) accepts(v float64) bool {
 //
 // Values equal to 0 may be absent (ZeroEaterPlanner; the statement does not distinguish 0 from no value).
 // It returns "" or a description; kind names the first failed rule.
-func compare(ref *Ref, impl []Point, p Params, stepGtRangeLoose bool) (kind, diff string) {
+func compare(ref *Ref, impl []Point, p Params) (kind, diff string) {
 	rng := ref.RangeNs
 	step := p.StepMs * 1000000
 	from, to := p.FromS*sec, p.ToS*sec
@@ -743,9 +734,6 @@ func compare(ref *Ref, impl []Point, p Params, stepGtRangeLoose bool) (kind, dif
 				pt.Labels, tsText(pt.T), pt.V, s.bucketText())
 		}
 	}
-	if step > rng && stepGtRangeLoose {
-		return "", ""
-	}
 	tieCount := map[key]int{} // (bucket as text, t) → tied candidates seen
 	var keys []string
 	for k := range ref.Series {
@@ -776,7 +764,9 @@ func compare(ref *Ref, impl []Point, p Params, stepGtRangeLoose bool) (kind, dif
 				v, have := seen[key{l, t}]
 				whole := t+step <= b+rng
 				if rp.Opt {
-					if whole && have && rp.accepts(v) {
+					// at t == b a tied series that lost here but was reported for the previous bucket may still show its
+					// previous value (closed window): count only where that cannot happen
+					if whole && have && rp.accepts(v) && (t > b || s.Buckets[b-rng] == nil) {
 						tieCount[key{strconv.FormatInt(b, 10), t}]++
 					}
 					continue
@@ -799,13 +789,22 @@ func compare(ref *Ref, impl []Point, p Params, stepGtRangeLoose bool) (kind, dif
 			}
 		}
 	}
+	// buckets where some tied candidate also has a value in the previous bucket: the count at t == b is not decidable
+	tiePrev := map[int64]bool{}
+	for _, s := range ref.Series {
+		for b, rp := range s.Buckets {
+			if rp.Opt && s.Buckets[b-rng] != nil {
+				tiePrev[b] = true
+			}
+		}
+	}
 	for b, need := range ref.TieNeed {
 		i0 := int64(0)
 		if b > from {
 			i0 = (b - from + step - 1) / step
 		}
 		for t := from + i0*step; t+step <= b+rng && t <= to; t += step {
-			if t < b {
+			if t < b || (t == b && tiePrev[b]) {
 				continue
 			}
 			if got := tieCount[key{strconv.FormatInt(b, 10), t}]; got != need {
@@ -829,7 +828,11 @@ func tsText(ns int64) string {
 	if ns%sec == 0 {
 		return fmt.Sprintf("%ds", ns/sec)
 	}
-	return fmt.Sprintf("%.9gs", float64(ns)/1e9)
+	neg := ""
+	if ns < 0 {
+		neg, ns = "-", -ns
+	}
+	return fmt.Sprintf("%s%d.%09ds", neg, ns/sec, ns%sec)
 }
 
 func (r *Ref) seriesList() string {
